@@ -11,8 +11,14 @@ Why it matters for the wait counters: the return handlers decrement `Outstanding
 when the response of the transaction flagged *last* arrives; `waitcnt_tracks_truth` needs responses
 in issue order (`inOrder`), which the reorder buffer (C15) provides **for the order in which the
 requests reach it**. So the unit itself must hand the transactions to the port in creation order.
-With one lane it does (`vmu_one_lane_fifo`); with several lanes it does not
-(`vmu_fifo_full … _refuted`, reproduced on the real unit: findings C14-vmu-lanes-reorder-*). -/
+The repaired unit does, for every number of lanes (`vmu_fifo_full`, `vmu_last_transaction_sent_last`):
+it records the order in which the transactions entered the pipeline, sends the oldest only and sets
+a younger head of the post-pipeline buffer aside (`C14.Vmu.send`). Before the repair (`C14.Vmu.Old`)
+it did so with one lane only (`Old.vmu_one_lane_fifo`); with several lanes a full post-pipeline buffer
+stalled the lanes, Akita's `Tick` served them by lane number and younger transactions — also the
+last-flagged one — overtook older ones (`vmu_fifo_before_fix_…_refuted`; former findings
+C14-vmu-lanes-reorder-*). With one lane the repaired unit behaves, cycle by cycle, as the old one
+(`vmu_one_lane_unchanged`). -/
 namespace C14.Vmu
 
 /-- the r9nano configuration: one lane, ten stages, post-pipeline buffer 8, port 64 -/
@@ -33,61 +39,137 @@ theorem configurations_are_the_shipped_ones :
 def pressure : List Op :=
   [.issue 64 0, .issue 64 0, .issue 64 0] ++ List.replicate 40 (.cyc 0) ++ List.replicate 160 (.cyc 1)
 
-/-- **vmu_one_lane_fifo.** A vector memory unit whose transaction pipeline has ONE lane (any number
-    of stages, any buffer and port capacities, any coalescing penalties), under every schedule of
-    instruction issues and memory back-pressure: the transactions reach the port in the order in
-    which `executeFlatLoad/Store` created them, without a gap — and what has not been sent yet waits,
-    in creation order, in the post-pipeline buffer, then in the lane from its last stage to its
-    first, then in `transactionsWaiting`. -/
-theorem vmu_one_lane_fifo (c : Cfg) (hw : c.width = 1) (ops : List Op) :
+/-- the full statement: requests reach the port in creation order, for every configuration -/
+def vmu_fifo_full (c : Cfg) : Prop := ∀ ops : List Op, (run c (St.init c) ops).sent.Pairwise (· < ·)
+
+/-- the same statement about the unit before the repair -/
+def vmu_fifo_before_fix_full (c : Cfg) : Prop := ∀ ops : List Op, (Old.run c (St.init c) ops).sent.Pairwise (· < ·)
+
+/-- **vmu_fifo** (repaired unit; any number of lanes and stages, any buffer and port capacities, any
+    coalescing penalties, every schedule of instruction issues and memory back-pressure): the
+    transactions reach the port in the order in which `executeFlatLoad/Store` created them, without
+    a gap — and what has not been sent yet is, in creation order, `transactionsInOrder` followed by
+    `transactionsWaiting`. -/
+theorem vmu_fifo (c : Cfg) (ops : List Op) :
     (run c (St.init c) ops).sent = List.range (run c (St.init c) ops).sent.length ∧
-    order (run c (St.init c) ops) = List.range (run c (St.init c) ops).next :=
-  ⟨vmu_one_lane_sent c hw ops, vmu_one_lane_order c hw ops⟩
+    ledger (run c (St.init c) ops) = List.range (run c (St.init c) ops).next :=
+  ⟨vmu_sent_range c ops, (vmu_inv c ops).1⟩
+
+/-- **vmu_fifo_full holds for every configuration** (was refuted for more than one lane before the
+    repair: `vmu_fifo_before_fix_two_lanes_refuted`, `vmu_fifo_before_fix_mi300a_refuted`). -/
+theorem vmu_fifo_full_all (c : Cfg) : vmu_fifo_full c := by
+  intro ops
+  rw [(vmu_fifo c ops).1]
+  exact List.pairwise_lt_range
+
+theorem vmu_fifo_full_two_lanes : vmu_fifo_full ⟨2, 1, 1, 1, 16⟩ := vmu_fifo_full_all _
+theorem vmu_fifo_full_mi300a : vmu_fifo_full mi300a := vmu_fifo_full_all _
+
+/-- **The last transaction of an instruction is sent last** — what the return handlers rely on when
+    they decrement `OutstandingVectorMemAccess` at the response of the transaction flagged last
+    (`CanWaitForCoalesce = false`): whenever transaction `j` has been put on the port, every older
+    transaction `i < j` (in particular every other transaction of the same instruction) has been put
+    on the port before it. Behind a memory path that answers in the order it receives the requests
+    (C15's reorder buffer) the hypothesis `inOrder` of `waitcnt_tracks_truth` therefore holds for
+    every pipeline width. -/
+theorem vmu_last_transaction_sent_last (c : Cfg) (ops : List Op) (i j : Nat) (hij : i < j)
+    (hj : j ∈ (run c (St.init c) ops).sent) :
+    ∃ a b, (run c (St.init c) ops).sent = a ++ j :: b ∧ i ∈ a := by
+  have h := (vmu_fifo c ops).1
+  generalize (run c (St.init c) ops).sent = l at *
+  rw [h] at hj
+  have hjl := List.mem_range.mp hj
+  refine ⟨List.range j, List.range' (j + 1) (l.length - (j + 1)), ?_, List.mem_range.mpr hij⟩
+  rw [h]
+  generalize l.length = n at *
+  obtain ⟨k, rfl⟩ : ∃ k, n = j + (k + 1) := ⟨n - (j + 1), by omega⟩
+  have : j + (k + 1) - (j + 1) = k := by omega
+  rw [List.length_range, this, List.range_eq_range', List.range_eq_range',
+    ← List.range'_append_1 (s := 0) (m := j) (n := k + 1)]
+  simp [List.range'_succ]
 
 example : (run r9nano (St.init r9nano) pressure).sent = List.range 189 := by decide +kernel
+example : (run mi300a (St.init mi300a) pressure).sent = List.range 192 := by decide +kernel
 
 /-- **vmu_no_loss** (any number of lanes, every schedule): every transaction created is in exactly
-    one place — sent, in the post-pipeline buffer, inside the pipeline or waiting —, the
-    post-pipeline buffer and the port never exceed their capacities. -/
+    one place — sent, set aside, in the post-pipeline buffer, inside the pipeline or waiting —,
+    `transactionsInOrder` lists exactly the transactions set aside, in the buffer and in the
+    pipeline (so `setAsideTransaction` finds the head it pops), the post-pipeline buffer and the port
+    never exceed their capacities. -/
 theorem vmu_no_loss (c : Cfg) (ops : List Op) :
-    (run c (St.init c) ops).sent.length + (run c (St.init c) ops).post.length + inPipe (run c (St.init c) ops) +
-      (run c (St.init c) ops).waiting.length = (run c (St.init c) ops).next ∧
-    (run c (St.init c) ops).post.length ≤ c.buf ∧ (run c (St.init c) ops).out.length ≤ c.cap :=
-  vmu_count c ops
+    ((run c (St.init c) ops).sent.length + (run c (St.init c) ops).aside.length + (run c (St.init c) ops).post.length +
+      inPipe (run c (St.init c) ops) + (run c (St.init c) ops).waiting.length = (run c (St.init c) ops).next ∧
+    (run c (St.init c) ops).inOrder.length =
+      (run c (St.init c) ops).aside.length + (run c (St.init c) ops).post.length + inPipe (run c (St.init c) ops) ∧
+    (run c (St.init c) ops).post.length ≤ c.buf ∧ (run c (St.init c) ops).out.length ≤ c.cap) ∧
+    (run c (St.init c) ops).inOrder.Perm (held (run c (St.init c) ops)) :=
+  ⟨vmu_count c ops, (vmu_inv c ops).2.1⟩
+
+/-- **vmu_set_aside_bounded**: the unit never keeps more transactions between pipeline entry and
+    port — and never sets more aside — than the post-pipeline buffer and the pipeline hold together
+    (while something is set aside the pipeline accepts nothing). mi300a: 64 + 8·4 = 96. -/
+theorem vmu_set_aside_bounded (c : Cfg) (ops : List Op) :
+    (run c (St.init c) ops).inOrder.length ≤ c.buf + c.width * c.stages ∧
+    (run c (St.init c) ops).aside.length ≤ c.buf + c.width * c.stages := vmu_bound c ops
+
+/-- the visible part of a unit: what the unit before the repair consists of -/
+def vis (s : St) : List (Nat × Nat) × Nat × List (List (Option Nat)) × List Nat × List Nat × List Nat × Nat :=
+  (s.waiting, s.stall, s.lanes, s.post, s.out, s.sent, s.next)
+
+/-- **vmu_one_lane_unchanged.** With ONE lane (the r9nano configuration, the `cu.MakeBuilder`
+    default) the repaired unit is, after every schedule, in the state the unit before the repair
+    would be in — same queues, same lane contents, same port buffer, same send history, hence the
+    same timing —, and nothing is ever set aside. -/
+theorem vmu_one_lane_unchanged (c : Cfg) (hw : c.width = 1) (ops : List Op) :
+    vis (run c (St.init c) ops) = vis (Old.run c (St.init c) ops) ∧ (run c (St.init c) ops).aside = [] := by
+  obtain ⟨h1, h2, h3, h4, h5, h6, h7, h8, _⟩ := vmu_run_same c ops _ _ (vmu_init_same c hw)
+  exact ⟨by simp [vis, h1, h2, h3, h4, h5, h6, h7], h8⟩
 
 example : (run mi300a (St.init mi300a) (pressure.take 60)).post.length = 64 ∧
     (run mi300a (St.init mi300a) (pressure.take 60)).out.length = 63 ∧
     inPipe (run mi300a (St.init mi300a) (pressure.take 60)) = 32 := by decide +kernel
 
-/-- the full statement: requests reach the port in creation order, for every configuration -/
-def vmu_fifo_full (c : Cfg) : Prop := ∀ ops : List Op, (run c (St.init c) ops).sent.Pairwise (· < ·)
+/-- under the back-pressure schedule the repaired mi300a unit does set transactions aside -/
+example : ((List.range 204).map fun k => (run mi300a (St.init mi300a) (pressure.take k)).aside.length).foldl max 0 = 53 := by
+  decide +kernel
 
-/-- the strongest true part: one lane -/
-theorem vmu_fifo_partial (c : Cfg) (hw : c.width = 1) : vmu_fifo_full c := by
+/-! ## the unit before the repair -/
+
+/-- **Old.vmu_one_lane_fifo.** Before the repair: with ONE lane the transactions reached the port in
+    creation order (and what was not sent waited, in creation order, in the post-pipeline buffer,
+    then in the lane from its last stage to its first, then in `transactionsWaiting`). -/
+theorem vmu_one_lane_fifo_before_fix (c : Cfg) (hw : c.width = 1) (ops : List Op) :
+    (Old.run c (St.init c) ops).sent = List.range (Old.run c (St.init c) ops).sent.length ∧
+    order (Old.run c (St.init c) ops) = List.range (Old.run c (St.init c) ops).next :=
+  ⟨Old.vmu_one_lane_sent c hw ops, Old.vmu_one_lane_order c hw ops⟩
+
+/-- the strongest true part before the repair: one lane -/
+theorem vmu_fifo_before_fix_partial (c : Cfg) (hw : c.width = 1) : vmu_fifo_before_fix_full c := by
   intro ops
-  rw [(vmu_one_lane_fifo c hw ops).1]
+  rw [(vmu_one_lane_fifo_before_fix c hw ops).1]
   exact List.pairwise_lt_range
 
-/-- **It is false with several lanes.** Smallest witness: two lanes of one stage, buffer and port of
+/-- **It was false with several lanes.** Smallest witness: two lanes of one stage, buffer and port of
     one place, one access of four transactions: transaction 1 waits in lane 1 for room in the
     post-pipeline buffer while lane 0, served first by `Tick`, passes transactions 2 and 3. -/
-theorem vmu_fifo_full_two_lanes_refuted : ¬ vmu_fifo_full ⟨2, 1, 1, 1, 16⟩ := by
+theorem vmu_fifo_before_fix_two_lanes_refuted : ¬ vmu_fifo_before_fix_full ⟨2, 1, 1, 1, 16⟩ := by
   intro h
   have := h [.issue 4 0, .cyc 0, .cyc 0, .cyc 0, .cyc 1, .cyc 1, .cyc 1, .cyc 1]
   revert this
   decide
 
 /-- **... and with the shipped mi300a configuration** (8 lanes, 4 stages, buffer 64, port 64): three
-    accesses of 64 transactions under back-pressure leave in the order …,127,128,136,144,152,160…191,
-    129,137,… — the last-flagged transaction 191 of the third access is sent before 28 of its older
-    transactions. The real unit does exactly this (harness, first `c14 vmu w=8` case of every run). -/
-theorem vmu_fifo_full_mi300a_refuted : ¬ vmu_fifo_full mi300a := by
+    accesses of 64 transactions under back-pressure left in the order …,127,128,136,144,152,160…191,
+    129,137,… — the last-flagged transaction 191 of the third access was sent before 28 of its older
+    transactions. The real unit did exactly this before the repair (former findings
+    C14-vmu-lanes-reorder-transactions / -counter-early). -/
+theorem vmu_fifo_before_fix_mi300a_refuted : ¬ vmu_fifo_before_fix_full mi300a := by
   intro h
   have := h pressure
   revert this
   decide +kernel
 
-example : ((run mi300a (St.init mi300a) pressure).sent.drop 156).take 12 =
+example : ((Old.run mi300a (St.init mi300a) pressure).sent.drop 156).take 12 =
     [184, 185, 186, 187, 188, 189, 190, 191, 129, 137, 145, 153] := by decide +kernel
 
 end C14.Vmu
